@@ -443,7 +443,15 @@ def _fix_closing_tag_spacing(text: str) -> str:
             if i > 0 and fixed_lines:
                 prev_line = fixed_lines[-1]
                 prev_is_empty = prev_line.strip() == ""
-                prev_is_block = line_is_block_content(prev_line)
+                # The block before the tag may span several lines (a wrapped list item):
+                # look back to where it starts, not only at the line directly above.
+                prev_is_block = False
+                for earlier in reversed(fixed_lines):
+                    if earlier.strip() == "":
+                        break
+                    if line_is_block_content(earlier):
+                        prev_is_block = True
+                        break
                 if not prev_is_empty and prev_is_block:
                     # Add blank line before closing tag to prevent lazy continuation
                     fixed_lines.append("")
